@@ -133,15 +133,21 @@ def _simp(e):
 # arithmetic operation is the exact real value plus an unconstrained error of at most ROUNDING['delta'].  This
 # OVER-approximates IEEE rounding for values of moderate size, so a proof under it also covers the doubles; a
 # counterexample under it is only a candidate and is reported only if it reproduces on the real code with real doubles.
-ROUNDING = {'on': False, 'delta': z3.RealVal(1) / z3.RealVal(2 ** 40), 'n': 0}
+ROUNDING = {'on': False, 'delta': z3.RealVal(1) / z3.RealVal(2 ** 40), 'n': 0, 'u': z3.RealVal(1) / z3.RealVal(2 ** 50)}
 
 
 def _rounded(v):
     v = _simp(v)
     if z3.is_rational_value(v):
         return v
-    e = symx.CTX.fresh('rnd', 'real')
     ROUNDING['n'] += 1
+    if ROUNDING['on'] == 'rel':
+        # magnitude-RELATIVE error with a fixed pattern: result * (1 +/- 2^-50), the sign alternating from operation to
+        # operation.  Not an over-approximation (real rounding picks its own signs) - a cheap stand-in, free of new
+        # variables, under which errors that do not cancel (catastrophic cancellation) become visible to the solver;
+        # whatever it finds is only a candidate until real doubles show it.
+        return v * (1 + ROUNDING['u']) if ROUNDING['n'] % 2 else v * (1 - ROUNDING['u'])
+    e = symx.CTX.fresh('rnd', 'real')
     symx.CTX.assume(z3.And(e >= -ROUNDING['delta'], e <= ROUNDING['delta']))
     return v + e
 
